@@ -225,6 +225,59 @@ def explore_c17(rng, tier, res, deep=False):
                 expect.append(("__outcomes__", q, doc, None))
                 sets.append((q, doc, {r for _ch, r in leaves}, False, len(expect) - 1))
                 res.count("descent-below-root-at-limit", len(leaves))
+    # WIDE values (many more pending nodes than the depth limit is large: long arrays of scalars next to arrays of containers),
+    # default and low limits, sampled scripts: too many outcomes to enumerate, so each result is judged by the conditions
+    # themselves — the multiset of the deterministic result; elements of one array in index order; every node after its
+    # parent — which any ordering RFC 9535 permits satisfies
+    def _rfc_order_problems(nodes, det_nodes):
+        locs = [tuple(n.location) for n in nodes]
+        if sorted(map(repr, locs)) != sorted(repr(tuple(n.location)) for n in det_nodes):
+            return "not the nodes of the deterministic result"
+        def ordered(seq, what):
+            pos = {}
+            for i, l in enumerate(seq):
+                pos.setdefault(l, i)
+            for l in seq:
+                if l and isinstance(l[-1], int) and l[-1] > 0:
+                    for j in range(l[-1]):
+                        prev = l[:-1] + (j,)
+                        if prev in pos and pos[prev] > pos[l]:
+                            return f"{what}: array element {list(l)} before element {list(prev)} of the same array"
+                for cut in range(len(l)):
+                    if l[:cut] in pos and pos[l[:cut]] > pos[l]:
+                        return f"{what}: node {list(l)} before its ancestor {list(l[:cut])}"
+            return None
+
+        # the result nodes themselves, and the VISIT order of the descendant segment: with a wildcard as its only selector
+        # the visited nodes are the parents of the result nodes, in order of first appearance
+        visit = []
+        for l in locs:
+            if l and l[:-1] not in visit:
+                visit.append(l[:-1])
+        return ordered(locs, "result") or ordered(visit, "visit order")
+
+    wide_cases = [(100, {"rows": [[1], [2]], "cells": list(range(120))}, "$..[*]"), (100, {"cells": list(range(130)), "rows": [[1, [2]], [3], [[4]]]}, "$..*"),
+                  (5, [[[1], [2]], 10, 11, 12, 13, 14, 15], "$..[*]"), (5, [0, 1, 2, 3, 4, 5, 6, [[1], [2], [3]]], "$..*"), (3, {"a": [[1], [2]], "b": [5, 6, 7, 8, 9]}, "$..[0]"),
+                  (4, [[[0], [1]], [[2], [3]], 7, 8, 9, 10, 11], "$..[*]")]
+    for lim, doc, q in wide_cases:
+        wdesc = dict(ND_ENV, maxDepth=lim)
+        wenv = real.make_env(wdesc)
+        det = real.make_env(dict(wdesc, nd=False)).find(q, doc)
+        c = wenv.compile(q)
+        for k in range(40 if tier != "thorough" else 400):
+            ch = chooser.Chooser((), rng=_random.Random(rng.random()))
+            res.evaluations += 1
+            try:
+                with chooser.scripted(ch):
+                    got = c.find(doc)
+                prob = _rfc_order_problems(got, det)
+            except jp.JSONPathError as exc:
+                prob = "raised " + type(exc).__name__
+            if prob:
+                res.violations.append({"property": "C17", "query": q, "document": doc, "env": wdesc, "observed": prob, "script": ch.wire()[:400],
+                                       "expected": "an ordering RFC 9535 permits", "what": "nondeterministic mode on a wide value"})
+                break
+        res.count("wide-values-sampled-scripts")
     # the flag is the environment's, read when a query is APPLIED: a query compiled while it was off and applied after it
     # was switched on (instance attribute or class attribute) is nondeterministic in full — every permitted ordering of
     # these small inputs is produced by some script, none that is not permitted
@@ -452,7 +505,9 @@ def graph_stage(rng, tier, res):
             tail = "err JSONPathRecursionError"
         except RecursionError:
             tail = "err PY:RecursionError"
-        except AttributeError as err:
+        except (AttributeError, TypeError) as err:
+            # a private generator that moved or changed its signature: the stage cannot be run (noted), the public entry
+            # points below and in the other stages still are
             res.notes.append(f"_visit entry point not reachable: {err!r}")
             return
         res.evaluations += 1
@@ -517,7 +572,7 @@ def nd_graph_stage(rng, tier, res):
             tail = "err JSONPathRecursionError"
         except RecursionError:
             tail = "err PY:RecursionError"
-        except AttributeError as err:
+        except (AttributeError, TypeError) as err:
             res.notes.append(f"_nondeterministic_visit entry point not reachable: {err!r}")
             return
         res.evaluations += 1
@@ -556,7 +611,7 @@ def nd_graph_stage(rng, tier, res):
                         break
         except jp.JSONPathRecursionError:
             tail = "err JSONPathRecursionError"
-        except AttributeError:
+        except (AttributeError, TypeError):
             return
         res.evaluations += 1
         if tail != "too-many":
@@ -615,6 +670,35 @@ def explore_c18_nd(rng, tier, res, deep=False):
                                 break
                             lines.append(f"nd.find\t{eenv}\t{a}\t{wire.enc_json(doc)}\t{ch.wire()}")
                             expect.append((r, doc, ch.wire(), qtext))
+        # SEVERAL input nodes whose subtrees are all exactly as deep as the limit allows (or one less): the bound is counted
+        # anew for every input node of the segment, whatever was traversed for the input nodes before it
+        def _chain(k, leaf):
+            v = leaf
+            for _ in range(k):
+                v = {"a": v}
+            return v
+
+        for k in (lim - 1, lim):
+            if k < 1:
+                continue
+            mdoc = {"p": _chain(k, 1), "q": _chain(k, 2), "r": _chain(k, 3)}
+            mdoc_arr = [_chain(k, 1), _chain(k, 2), [_chain(k - 1, 3)] if k > 1 else [3]]
+            for qtext, doc in (("$[*]..a", mdoc), ("$['p','q','r']..*", mdoc), ("$.*..a", mdoc), ("$[*]..*", mdoc_arr), ("$[0,1,0]..a", mdoc_arr), ("$..a..a", {"a": mdoc} if k + 1 < lim else mdoc)):
+                c = env.compile(qtext)
+                a = real.ast_query(c)
+                leaves, complete = choice_tree(env, c, doc, 40)
+                want_ok = doc_depth(doc) - 1 <= lim if not qtext.startswith("$..") else doc_depth(doc) <= lim
+                for ch, r in leaves:
+                    res.evaluations += 1
+                    ok = r.startswith("ok\t")
+                    if ok != want_ok or (not ok and r != "err JSONPathRecursionError"):
+                        res.violations.append({"property": "C18", "query": qtext, "document": doc, "env": desc, "observed": r[:200], "script": ch.wire(),
+                                               "expected": "full result" if want_ok else "JSONPathRecursionError",
+                                               "what": f"nondeterministic mode, limit {lim}: several input nodes, each subtree nested {k} deep"})
+                        break
+                    lines.append(f"nd.find\t{eenv}\t{a}\t{wire.enc_json(doc)}\t{ch.wire()}")
+                    expect.append((r, doc, ch.wire(), qtext))
+                res.count("nd-several-input-nodes-at-limit")
         out = model.run_batch_parallel(lines)
         for (r, doc, script, qtext), o in zip(expect, out):
             if o != r:
